@@ -6,6 +6,7 @@ import WS.Model.Utf8
 import WS.Model.Frame
 import WS.Model.Conn
 import WS.Model.Threads
+import WS.Model.Readers
 namespace WS.Driver.Core
 open WS WS.Driver WS.Model
 
@@ -211,6 +212,21 @@ def ops : List String → Option String
     let pcs := (List.range fr.length).map fun i => match st.pc i with
       | .start => "s" | .writing _ => "w" | .done => "d"
     some (s!"{summarize st.wire}|{String.intercalate "." (st.order.map toString)}|{String.intercalate "" pcs}")
+  | ["m-threads-recv", frames, sched] => do
+    -- frames: `fin:opcode:payload` joined by '.'; sched: task ids joined by '.'
+    let fr ← (frames.splitOn ".").mapM fun t =>
+      match t.splitOn ":" with
+      | [fin, op, p] => do
+        let fin ← fin.toNat?
+        let op ← op.toNat?
+        let p ← parseBytes p
+        some ({ fin := fin, rsv1 := 0, rsv2 := 0, rsv3 := 0, opcode := op, mask := 0, data := p } : Model.Frame)
+      | _ => none
+    let sc ← if sched == "-" then some [] else (sched.splitOn ".").mapM String.toNat?
+    let st := Model.Readers.run Gen.recvUnderReadlock (Model.Readers.init fr) sc
+    let dl := st.delivered.map fun (i, op, d) => s!"{i}:{op}:{summarize d}"
+    let holder := match st.holder with | none => "-" | some h => toString h
+    some (s!"{String.intercalate "," dl}|{st.stream.length}|{holder}|{b2s st.cont.isNone}")
   | ["m-close-code", n] => n.toNat?.map (fun n => b2s (Model.isValidCloseStatus n))
   | ["s-close-code", n] => n.toNat?.map (fun n => b2s (Spec.wireCode n))
   | ["s-decode", w] => (parseBytes w).map (fun w => wireOut (Spec.decode w))
